@@ -353,6 +353,8 @@ from . import initial
 
 from . import removals
 
+from . import mustcall
+
 OBLIGATIONS = [
     ('C12.O1', 'typestate', 'the transition relation extracted from all stores to UdpProtocol.state with their guards is the '
      'reviewed one; remote_magic is stored only on the ->Running edge.', o1),
@@ -369,8 +371,10 @@ OBLIGATIONS = [
     ('C12.O7', 'Disconnected is terminal', 'both handle_event implementations stop the endpoint on Event::Disconnected; poll/handle_message '
      'emit events only while Running.', o7),
     ('C12.O9', 'every accepted message is a sign of life', 'in handle_message the one store to last_recv_time lies on every path from entry to the dispatch of the message (all 8 kinds, every protocol state incl. the handshake): the interruption / disconnect timers measure silence since the last accepted packet.', c07.liveness_refresh),
+    ('C12.O10', 'interruption timers and the announced remaining time (= C07.O1)', 'NetworkInterrupted / Disconnected are raised by the two timer guards and NetworkInterrupted carries exactly disconnect_timeout - disconnect_notify_start (floored at zero), in milliseconds; see C07.O1', c07.o1),
     ('C12.H', 'helpers the rules above rely on', 'the bodies of the helpers named by this property\'s rules compute what the rules assume (protocol_state_tests); see rules/helpers.py', helpers.bundle('protocol_state_tests')),
     ('C12.W', 'configuration wiring', 'at every call site that passes a field read `x.B` for a parameter `A` the callee has no same-typed parameter `B`; in every struct literal no parameter `B` is stored in field `A` while a same-typed parameter `A` / field `B` exists (builder -> constructor -> endpoint fields: timeouts, window, fps are not crossed); see rules/wiring.py', wiring.rule),
     ('C12.I', 'initial state', 'every constructor gives the fields this property\'s rules interpret (NULL_FRAME = none / nothing yet, 0 = first frame, latches open, typestate start) the value listed in tables/initial_state.json; every field compared with NULL_FRAME anywhere is listed; see rules/initial.py', initial.rule_for('C12')),
     ('C12.R', 'who may remove', 'every call that takes elements out of a collection this property\'s rules rely on (keyed removal from a map, or bulk / positional removal) is one of the reviewed sites in tables/removals.json; a lookup turned into a removal, a second prune, a clear on another path is reported; see rules/removals.py', removals.rule_for('C12')),
+    ('C12.M', 'must-call floor', 'the calls listed for this property in tables/must_call.json are made on every path from the entry of their function to a normal return (interprocedural must-call): a new early return, fast path or extra condition in front of one of them is reported; see rules/mustcall.py', mustcall.rule_for('C12')),
 ]
